@@ -59,7 +59,7 @@ def rerun_case(rep, drv, spec, rng):
 		for k in rates:
 			if rng.random() < .6:
 				nd[k] = rng.choice([v for v in rates[k] if v != nd[k]])
-				setattr(py['objs'][l], attr[k], simlib.num(nd[k]))
+				setattr(simlib.attr_holder(spec, py['objs'][l]), attr[k], simlib.num(nd[k]))
 	rep.count('rerun-after-rate-change')
 	kernel_case(rep, drv, spec2, net_objs=(py['net'], py['objs']), stream='cost-kernel(second run after changing rates)')
 
